@@ -154,7 +154,10 @@ func sections(full bool) map[string][]variant {
 	s["id"] = []variant{
 		{"id=zero", func(d *Desc) {}},
 		{"id=nonzero", func(d *Desc) { d.Bus, d.Vendor, d.Product, d.Version = 3, 0x54c, 0x9cc, 0x8111 }},
-		{"id=max+uniq", func(d *Desc) { d.Bus, d.Vendor, d.Product, d.Version = 65535, 65535, 65535, 65535; d.Uniq = sp("aa:bb:cc") }},
+		{"id=max+uniq", func(d *Desc) {
+			d.Bus, d.Vendor, d.Product, d.Version = 65535, 65535, 65535, 65535
+			d.Uniq = sp("aa:bb:cc")
+		}},
 		{"id=empty-uniq", func(d *Desc) { d.Uniq = sp("") }},
 	}
 	for _, o := range []int{0, 3, -2, 127, -128} {
@@ -195,7 +198,10 @@ func sections(full bool) map[string][]variant {
 	s["mappings"] = []variant{
 		{"mappings=2 default-first", func(d *Desc) { d.Mappings = append(d.Mappings, second()) }},
 		{"mappings=2 default-last", func(d *Desc) { d.Mappings = append(d.Mappings, second()); d.DefMap = "Second" }},
-		{"mappings=3 empty-third", func(d *Desc) { d.Mappings = append(d.Mappings, second(), Mapping{Name: "Control"}); d.DefMap = "Control" }},
+		{"mappings=3 empty-third", func(d *Desc) {
+			d.Mappings = append(d.Mappings, second(), Mapping{Name: "Control"})
+			d.DefMap = "Control"
+		}},
 		{"mappings=analog-only", func(d *Desc) { d.Mappings[0].Keys = nil }},
 		{"mappings=keys-only", func(d *Desc) { d.Mappings[0].Axes = nil }},
 		{"mappings=two-analog-subhandlers", func(d *Desc) {
@@ -574,6 +580,18 @@ func generate(tier string) {
 						}
 					}
 				}
+			}
+		}
+	}
+	// (2c) ill-typed scalars: every scalar line of the base and of one fully populated description
+	{
+		d := baseDesc()
+		checkIllTyped(d, "base")
+		for _, n := range []string{"axes", "colors", "defaults"} {
+			if vs := secs[n]; len(vs) > 0 {
+				d := baseDesc()
+				vs[len(vs)-1].apply(d)
+				checkIllTyped(d, vs[len(vs)-1].name)
 			}
 		}
 	}
